@@ -346,6 +346,11 @@ fn handshakes(st: &mut Stats) {
         Some("key with spaces inside".into()),
         Some("~!@#$%^&*()_+{}|<>?".into()),
     ];
+    // every key length 0..130: key + GUID then covers every SHA-1 padding / block-boundary case
+    let mut keys = keys;
+    for n in 0..=130usize {
+        keys.push(Some((0..n).map(|i| (b'A' + ((i * 7 + n) % 26) as u8) as char).collect()));
+    }
     for k in &keys {
         s.evaluations += 1;
         s.states += 1;
